@@ -28,6 +28,37 @@ def _unchanged(c, t, out, a, n):
     c.prove("input.untouched", And(*[eq(x, y) for k in "xyz" for x, y in zip(col(t, k), a[k])]))
 
 
+def _custom_names(c, t):
+    """The same tree with non-default coordinate column names (SWCNames is part of the public constructor)."""
+    from swcgeom.core import Tree
+    from swcgeom.core.swc_utils import SWCNames
+
+    names = SWCNames(x="xx", y="yy", z="zz", r="rad")
+    nd = dict(t.ndata)
+    t2 = Tree(t.number_of_nodes(), names=names, id=nd["id"], pid=nd["pid"], type=nd["type"], xx=nd["x"], yy=nd["y"], zz=nd["z"], rad=nd["r"], w=nd["w"])
+    return t2
+
+
+def h_custom_names(c, n):
+    """Translate / Scale / RotateZ on a tree whose coordinate columns have custom names move the coordinates that x()/y()/z() report."""
+    from swcgeom.transforms import RotateZ, Scale, Translate
+
+    t0, a = sym_tree(c, n, extra=("w",))
+    t = _custom_names(c, t0)
+    tx, ty, tz = c.real("tx"), c.real("ty"), c.real("tz")
+    out = Translate(tx, ty, tz)(t)
+    c.prove("names.translate", And(*[eq(o, i + d) for f, k, d in ((out.x, "x", tx), (out.y, "y", ty), (out.z, "z", tz)) for o, i in zip(flat(f()), a[k])]))
+    s = c.real("s")
+    out = Scale(s, s, s, center="origin")(t)
+    c.prove("names.scale", And(*[eq(o, i * s) for f, k in ((out.x, "x"), (out.y, "y"), (out.z, "z")) for o, i in zip(flat(f()), a[k])]))
+    th, co, si = c.angle("theta")
+    out = RotateZ(th, center="origin")(t)
+    c.prove("names.rotate_z", And(*[eq(o, co * xi - si * yi) for o, xi, yi in zip(flat(out.x()), a["x"], a["y"])] + [eq(o, si * xi + co * yi) for o, xi, yi in zip(flat(out.y()), a["x"], a["y"])]))
+    c.prove("names.radius_untouched", And(*[eq(o, i) for o, i in zip(flat(out.r()), a["r"])]))
+    c.prove("names.no_stray_columns", sorted(out.keys()) == sorted(t.keys()), f"{sorted(out.keys())} vs {sorted(t.keys())}")
+    c.prove("names.input_untouched", And(*[eq(o, i) for o, i in zip(flat(t.x()), a["x"])]))
+
+
 def h_translate(c, n):
     from swcgeom.transforms import Translate, TranslateOrigin
 
@@ -200,6 +231,7 @@ def h_reuse(c, n, kind):
 
 
 HARNESSES = [
+    H("custom_names", h_custom_names, quick=[dict(n=2)], thorough=[dict(n=3)], functions=FUNCTIONS, bounds="n=2/3, coordinate / radius columns named xx, yy, zz, rad"),
     H("reuse", h_reuse, quick=[dict(n=2, kind=k) for k in ("scale", "rotz", "translate")], thorough=[dict(n=3, kind=k) for k in ("scale", "rotz", "translate")], functions=FUNCTIONS,
       bounds="one transform instance applied to two independent symbolic trees (n<=2/3 nodes each) and again to the first"),
     H("translate", h_translate, quick=[dict(n=2)], thorough=[dict(n=3)], functions=FUNCTIONS, bounds="n<=2 quick / 3 thorough nodes; tx,ty,tz any reals; both centres"),
